@@ -503,6 +503,47 @@ func c05Flatten(c *Check, ic *importClosure) {
 			if !isCanon(bin.X) || !isCanon(bin.Y) {
 				return
 			}
+			// one side must be computed from an element of the *whole* output
+			// list: list[i] with list loaded directly from the pointer parameter
+			// (no re-slicing), i a forward induction variable bounded by len(list)
+			whole := false
+			for _, side := range []ssa.Value{bin.X, bin.Y} {
+				call := side.(*ssa.Call)
+				derives(call.Call.Args[0], func(v ssa.Value) bool {
+					ia, ok := v.(*ssa.IndexAddr)
+					if !ok {
+						return false
+					}
+					ld, ok := ia.X.(*ssa.UnOp)
+					if !ok || ld.Op != token.MUL {
+						return false
+					}
+					if _, isParam := unspill(ld.X).(*ssa.Parameter); !isParam {
+						return false
+					}
+					if fwd, _ := inductionForward(ia.Index); !fwd {
+						return false
+					}
+					// bound: idx < len(list)
+					bounded := false
+					for _, r := range *ia.Index.Referrers() {
+						if cmp, ok := r.(*ssa.BinOp); ok && cmp.Op == token.LSS {
+							if lc, ok := cmp.Y.(*ssa.Call); ok {
+								if bi, ok := lc.Call.Value.(*ssa.Builtin); ok && bi.Name() == "len" && lc.Call.Args[0] == ssa.Value(ld) {
+									bounded = true
+								}
+							}
+						}
+					}
+					if bounded {
+						whole = true
+					}
+					return bounded
+				}, nil)
+			}
+			if !whole {
+				return
+			}
 			for _, br := range branchesOn(bin) {
 				t := br.TrueSucc
 				if _, isRet := t.Instrs[len(t.Instrs)-1].(*ssa.Return); isRet && len(t.Instrs) == 1 {
